@@ -464,6 +464,7 @@ type Atom struct {
 	X    ssa.Value  // subject value (typeis/dollar/nil)
 	Type types.Type // typeis
 	Or   []Atom     // disjunction
+	And  []Atom     // for a disjunct: what else holds when it does (its decomposition over boolean phis)
 	Set  []string   // inset: the members of the constant set
 	Src  ssa.Value
 }
@@ -654,7 +655,7 @@ func (p *Prov) atomsAt(b *ssa.BasicBlock) []Atom {
 			if fs := phiDisjunction(ph, f.Pol); len(fs) >= 2 {
 				a := Atom{Kind: "or", Pol: true}
 				for _, x := range fs {
-					a.Or = append(a.Or, p.atomOf(x.Cond, x.Pol))
+					a.Or = append(a.Or, p.disjunctAtom(x))
 				}
 				out = append(out, a)
 			}
@@ -663,7 +664,7 @@ func (p *Prov) atomsAt(b *ssa.BasicBlock) []Atom {
 	for _, d := range disjunctiveJoins(b) {
 		a := Atom{Kind: "or", Pol: true}
 		for _, f := range d {
-			a.Or = append(a.Or, p.atomOf(f.Cond, f.Pol))
+			a.Or = append(a.Or, p.disjunctAtom(f))
 		}
 		out = append(out, a)
 	}
@@ -688,6 +689,18 @@ func (p *Prov) atomsAt(b *ssa.BasicBlock) []Atom {
 		}
 	}
 	return out
+}
+
+// disjunctAtom: the atom of one alternative of a disjunction, with the atoms of everything
+// its truth implies (a boolean phi - `isRef` delivered by an inlined helper, an && chain -
+// decomposes into the conditions under which it has that value).
+func (p *Prov) disjunctAtom(f Fact) Atom {
+	a := p.atomOf(f.Cond, f.Pol)
+	ex := expandFacts([]Fact{f})
+	for _, g := range ex[1:] {
+		a.And = append(a.And, p.atomOf(g.Cond, g.Pol))
+	}
+	return a
 }
 
 // phiDisjunction: for a boolean phi and a required value, the alternative facts (one
@@ -790,6 +803,12 @@ func disjunctiveJoins(b *ssa.BasicBlock) [][]Fact {
 func rootOf(v ssa.Value) ssa.Value {
 	for depth := 0; depth < 8; depth++ {
 		switch x := v.(type) {
+		case *ssa.Phi:
+			a := phiAlias[x]
+			if a == nil {
+				return v
+			}
+			v = a
 		case *ssa.MakeInterface:
 			v = x.X
 		case *ssa.ChangeInterface:
@@ -901,8 +920,46 @@ func isNumericKind(t types.Type) bool {
 	return false
 }
 
-// justify returns the J-class that licenses a raw pass-through, or "".
-func (p *Prov) justify(s *Sink) string {
+// justify returns the J-class that licenses a raw pass-through, or "". When the guard holds
+// a disjunction the cases are tried one by one: the pass-through is licensed when it is in
+// every case.
+func (p *Prov) justify(s *Sink) string { return p.justifySplit(s, 0) }
+
+func (p *Prov) justifySplit(s *Sink, depth int) string {
+	if j := p.justify1(s); j != "" || depth >= 3 {
+		return j
+	}
+	for i, a := range s.Atoms {
+		if a.Kind != "or" || len(a.Or) < 2 || len(a.Or) > 6 {
+			continue
+		}
+		var js []string
+		for _, d := range a.Or {
+			cs := *s
+			cs.Atoms = append(append(append([]Atom{}, s.Atoms[:i]...), s.Atoms[i+1:]...), d)
+			cs.Atoms = append(cs.Atoms, d.And...)
+			j := p.justifySplit(&cs, depth+1)
+			if j == "" {
+				js = nil
+				break
+			}
+			js = append(js, j)
+		}
+		if len(js) > 0 {
+			sort.Strings(js)
+			uniq := js[:1]
+			for _, j := range js[1:] {
+				if j != uniq[len(uniq)-1] {
+					uniq = append(uniq, j)
+				}
+			}
+			return strings.Join(uniq, "|")
+		}
+	}
+	return ""
+}
+
+func (p *Prov) justify1(s *Sink) string {
 	v := resolveLocal(s.Val)
 	root := rootOf(v)
 	has := func(pred func(a Atom) bool) bool {
